@@ -2,7 +2,7 @@
 import os
 
 from . import core
-from .rules import stdio, cert, mark, exact, optstore, inval, idx, atomic, own, tokens, idxclass
+from .rules import stdio, cert, mark, exact, optstore, inval, idx, atomic, own, tokens, idxclass, copy
 from .effects import Effects
 
 FIX = os.path.join(os.path.dirname(os.path.abspath(__file__)), "fixtures")
@@ -76,7 +76,15 @@ def fx_idx():
         inval.ALL_NONSTATIC_PUBLIC = False
 
 
+def fx_copy():
+    prog = core.build_fixture([os.path.join(FIX, "copy.c")])
+    r = copy.run_shallow(prog, Effects(prog))
+    got = sorted(v.func for v in r.violations)
+    return [("R-SHALLOW fires exactly on {copy_bad, copy_half}", got == ["copy_bad", "copy_half"], str(got))]
+
+
 FIXTURES = {
+    "C16": [fx_copy],
     "C07": [fx_idx],
     "C05": [fx_inval],
     "C01": [fx_cert],
@@ -252,6 +260,32 @@ PROPS = {
                       "matched exactly, first word of each format literal",
         "not_decided": "that writer and reader agree on the meaning of each line for every basis (value-dependent round trip); name lookup "
                        "correctness in the symbol tables",
+    },
+    "C16": {
+        "rules": [lambda prog, tier: copy.run_shallow(prog), lambda prog, tier: copy.run_params(prog), lambda prog, tier: copy.run_clobber(prog),
+                  lambda prog, tier: exact.run(prog, {"COPY": {"roots": ["QScopy_prob_mpq_dbl", "QScopy_prob_mpq_mpf"], "closure": False}},
+                                               exceptions={("QScopy_prob_mpq_dbl", "mpq_get_d"): "the conversion to double itself: mpq_get_d truncates to the nearest "
+                                                           "double toward zero, within one unit in the last place",
+                                                           ("QScopy_prob_mpq_mpf", "mpf_set_q"): "the conversion to the working mpf precision itself",
+                                                           ("QScopy_prob_mpq_mpf", "mpq_get_d"): "time limit parameter is a double in every instantiation"},
+                                               rule="R-COPYCONV")],
+        "technique": "ownership inference from release sites (which pointer fields of a record are freed through a parameter of that "
+                     "record type, composed through embedded records) + must-follow dataflow after whole-struct assignments; "
+                     "setter/copier table agreement on parameter fields and QS_PARAM_* constants",
+        "explanation": "Decides two structural clauses of C16: (R-SHALLOW) no whole-struct assignment leaves an owned pointer shared "
+                       "between original and copy - for every record whose pointer fields are released through a parameter of its type, "
+                       "every such field of the destination of a struct assignment is re-initialised on all paths; (R-PARAMS) every field "
+                       "the parameter setters can write is written for the new object in QScopy_prob, and every QS_PARAM_* constant the "
+                       "setters accept is fetched and set by both QScopy_prob_mpq_dbl and QScopy_prob_mpq_mpf.",
+        "level_text": "All-paths ownership guarantee for struct copies plus table agreement for parameters. Found the two genuine defects "
+                      "of QScopy_prob on the pinned tree (pricing arrays shared between original and copy: use-after-free under ASan; "
+                      "iteration/time/objective limits not copied), both fixed in /repo. The 'within one ulp' clause and observational "
+                      "equality of all data are not decided.",
+        "level_note": "trusted: release sites recognised as free / ILLutil_freerus / EGfree (direct or through a defined wrapper) on access "
+                      "paths rooted at a parameter; struct assignments identified by the record type of the left-hand side (clang); "
+                      "memcpy-style copies are not recognised (none in the library units today)",
+        "not_decided": "entry-wise closeness of the converted numbers (value-dependent); equality of names/integrality marks in the copy; "
+                       "independence of symbol tables (they are rebuilt, not copied)",
     },
     "C20": {
         "rules": [lambda prog, tier: stdio.run(prog)],
